@@ -7,16 +7,37 @@ open Avo.Drv Avo.Attr
 
 /-- Parse the printed expression text back into tokens: parts separated by `|`,
 a part made of decimal digits is a literal, anything else a macro name. -/
+def hexVal? (s : String) : Option Nat :=
+  if s.startsWith "0x" || s.startsWith "0X" then
+    let ds := (s.drop 2).toString.toList
+    if ds.isEmpty then none else
+    ds.foldl (fun acc c => acc.bind (fun a =>
+      if c.isDigit then some (a * 16 + (c.toNat - '0'.toNat))
+      else if 'a' ≤ c && c ≤ 'f' then some (a * 16 + (c.toNat - 'a'.toNat + 10))
+      else if 'A' ≤ c && c ≤ 'F' then some (a * 16 + (c.toNat - 'A'.toNat + 10))
+      else none)) (some 0)
+  else none
+
 def parseText (s : String) : List Tok :=
   (s.splitOn "|").map (fun p => match p.toNat? with
     | some v => Tok.num v
-    | none => Tok.name p)
+    | none => match hexVal? p with
+      | some v => Tok.num v      -- the assembler reads hexadecimal literals too: a harmless change of verb
+      | none => Tok.name p)
+
+/-- A literal (or macro value) beyond 16 bits would be silently truncated by `evalToks`: the attribute is a
+16-bit value, so such a text is rejected outright. -/
+def wideLiteral (toks : List Tok) : Bool :=
+  toks.any (fun t => match t with
+    | .num v => v ≥ 65536
+    | .name n => match hdrValue Avo.Oracle.textflagH n with | some v => v ≥ 65536 | none => false)
 
 /-- Acceptor (the property itself, on the implementation's output): the text
 evaluates with the installed header to the value, and it uses a macro name only
 if the implementation says the header is needed. -/
 def acceptAttr (v : Nat) (text : String) (contains : Bool) : String :=
   let toks := parseText text
+  if wideLiteral toks then "bad-wide-literal" else
   match evalToks Avo.Oracle.textflagH toks with
   | none => "bad-unknown-macro"
   | some r =>
